@@ -104,6 +104,15 @@ struct verif_access {
 };
 }
 
+// a stream that throws after a number of lines: the step limit for parses that never end
+struct line_limit : std::runtime_error { line_limit() : std::runtime_error("line limit") {} };
+struct limited_buf : std::streambuf {
+  long lines = 0, limit;
+  explicit limited_buf(long l) : limit(l) {}
+  int_type overflow(int_type ch) override { if (ch == '\n' && ++lines > limit) throw line_limit(); return ch; }
+  std::streamsize xsputn(const char* s, std::streamsize n) override { for (std::streamsize i = 0; i < n; ++i) if (s[i] == '\n' && ++lines > limit) throw line_limit(); return n; }
+};
+
 static std::string strip_header(const std::string& d) { auto p = d.find("RULES\n"); return p == std::string::npos ? d : d.substr(p); }
 
 template<class P> static void run_case(P& p, const gcase& c, std::ostream& o) {
@@ -121,6 +130,16 @@ template<class P> static void run_case(P& p, const gcase& c, std::ostream& o) {
     o << "IN " << k++ << "\n";
     ctpg::parse_options opt; opt.set_verbose(in.verbose != 0).set_skip_whitespace(in.skipws != 0).set_skip_newline(in.skipnl != 0);
     std::string r1, r2, r3; std::string e1, e2; ctxlog log1, log2, log3;
+    {
+      // probe: a verbose parse into a line-limited stream; a parse that does not end within 200000 lines is reported as LOOP
+      bool loops = false; ctxlog lg; limited_buf lb(200000); std::ostream ls(&lb); ls.exceptions(std::ios_base::badbit);
+      ctpg::parse_options vo = opt; vo.set_verbose(true);
+      try { p.context_parse(lg, vo, ctpg::buffers::string_view_buffer(in.bytes), ls); }
+      catch (const line_limit&) { loops = true; }
+      catch (const std::ios_base::failure&) { loops = lb.lines > lb.limit; }
+      catch (const std::exception&) {}
+      if (loops) { o << "RES LOOP\nCTX\nLEXCALLS\nERR 0\n\nENDERR\nRES2 LOOP\nERR2 0\n\nENDERR2\nRES3 LOOP\n"; continue; }
+    }
     {
       checked_buffer buf(in.bytes); std::stringstream err; g_lex_remaining.clear();
       try { auto r = p.context_parse(log1, opt, buf, err); r1 = r ? "VALUE " + r->get_value().s : "NONE"; }
